@@ -269,6 +269,17 @@ static inline unsigned spec_ceil_log2(uint64_t d, unsigned bits) {          /* b
   for (unsigned i = 0; i < bits; i++) if ((x >> i) & 1) w = i + 1;
   return w;
 }
+/* signed: l = max(ceil(log2 |d|), 1); mp = floor(2^(N + l - 1) / |d|) + 1 - 2^N */
+static inline unsigned spec_gm_l_signed(uint64_t absd, unsigned bits) { unsigned l = spec_ceil_log2(absd, bits); return l < 1 ? 1 : l; }
+#if !defined(AVM_NATIVE) && defined(AVM_DIV_UF)
+static inline uint32_t spec_gm_magic_i32(uint32_t absd, unsigned l) {
+  return (uint32_t)(__CPROVER_uninterpreted_div_i64((int64_t)(((int64_t)0x80000000ll) << l), (int64_t)absd) - 0xffffffffll);
+}
+#else
+static inline uint32_t spec_gm_magic_i32(uint32_t absd, unsigned l) {
+  return (uint32_t)((((int64_t)0x80000000ll) << l) / (int64_t)absd - 0xffffffffll);
+}
+#endif
 #if !defined(AVM_NATIVE) && defined(AVM_DIV_UF)
 static inline uint32_t spec_gm_magic_u32(uint32_t d, unsigned l) {
   return (uint32_t)(__CPROVER_uninterpreted_div_u64(((((uint64_t)1) << l) - (uint64_t)d) << 32, (uint64_t)d) + 1);
@@ -283,6 +294,23 @@ static inline int spec_gm_div_u32_ok(uint32_t q, uint32_t r, uint32_t n, uint32_
   uint32_t t1 = (uint32_t)(AVM_MUL_u64((uint64_t)m, (uint64_t)n) >> 32);
   uint32_t qq = (t1 + ((n - t1) >> 1)) >> sh2;
   return q == qq && r == (uint32_t)(n - AVM_MUL_u32(qq, d));
+}
+/* signed variant (PLDI'94 Fig. 5.2) as AVEL evaluates it: mp = m - 2^N (N-bit signed), sh = l - 1, dsign = d >> (N - 1):
+ *      q0 = n + MULSH(mp, n);  q1 = SRA(q0, sh) - XSIGN(n);  q = EOR(q1, dsign) - dsign;  r = n - q * d      (all mod 2^N).
+ * That this is trunc(n / d) is lemma L4 (gm_signed_core / gm_signed_one in AvelLemmas.lean). */
+static inline int spec_gm_div_i32_ok(uint32_t q, uint32_t r, uint32_t n, uint32_t mp, uint32_t sh, uint32_t dsign, uint32_t d) {
+  int64_t prod = AVM_MUL_i64((int64_t)(int32_t)mp, (int64_t)(int32_t)n);
+  uint32_t q0 = (uint32_t)((int64_t)(int32_t)n + (prod >> 32));
+  uint32_t q1 = (uint32_t)((int32_t)q0 >> sh) - (uint32_t)((int32_t)n >> 31);
+  uint32_t qq = (q1 ^ dsign) - dsign;
+  return q == qq && r == (uint32_t)((int32_t)n - AVM_MUL_i32((int32_t)qq, (int32_t)d));
+}
+static inline int spec_gm_div_i64_ok(uint64_t q, uint64_t r, uint64_t n, uint64_t mp, uint64_t sh, uint64_t dsign, uint64_t d) {
+  int64_t hi = (int64_t)(AVM_MUL_i128((__int128)(int64_t)mp, (__int128)(int64_t)n) >> 64);
+  uint64_t q0 = n + (uint64_t)hi;
+  uint64_t q1 = (uint64_t)((int64_t)q0 >> sh) - (uint64_t)((int64_t)n >> 63);
+  uint64_t qq = (q1 ^ dsign) - dsign;
+  return q == qq && r == n - (uint64_t)AVM_MUL_i64((int64_t)qq, (int64_t)d);
 }
 static inline int spec_gm_div_u64_ok(uint64_t q, uint64_t r, uint64_t n, uint64_t m, uint64_t sh2, uint64_t d) {
   if (d == 1) return q == n && r == 0;
